@@ -237,6 +237,8 @@ func checkC04(p *Prog, r *Report) {
 	c04Naming(p, r)
 	r.Rule("R04f", "resolved names only: where a lookup returns (info, ok) with a struct info, the name fields of the info are read only on paths on which ok held (path-sensitive: every feasible path prefix reaching the read carries the fact); the zero info has an empty name and would produce a reference such as `__m` to a definition that does not exist", 5)
 	c04OkDiscipline(p, r)
+	c04OrderingUnit(p, r)
+	c04ConversionPairing(p, r)
 }
 
 // prefixFactsAt: for every feasible path prefix of f that reaches instruction u, the relations established
@@ -960,7 +962,42 @@ func c04Naming(p *Prog, r *Report) {
 		})
 	}
 	// self reference
-	crf := p.Func(Mod, "Ctx.coqRecurFunc")
+	// the function with this role, found by what it does: it takes a name and an identifier, tests scope
+	// containment (itself or through a helper it solely calls) and returns either the quoted binder or the global
+	var crf *ssa.Function
+	scopeTest := func(f *ssa.Function) bool {
+		has := false
+		p.instrs(f, func(b *ssa.BasicBlock, i int, in ssa.Instruction) {
+			if c, ok := in.(*ssa.Call); ok {
+				if calleeName(c) == "(*go/types.Scope).Contains" {
+					has = true
+				} else if g := calleeOf(&c.Call); g != nil && g.Pkg != nil && g.Pkg.Pkg.Path() == Mod && g != f {
+					p.instrs(g, func(b2 *ssa.BasicBlock, i2 int, in2 ssa.Instruction) {
+						if c2, ok := in2.(*ssa.Call); ok && calleeName(c2) == "(*go/types.Scope).Contains" {
+							has = true
+						}
+					})
+				}
+			}
+		})
+		return has
+	}
+	for _, f := range p.FuncsIn(Mod) {
+		if f.Signature.Results().Len() != 1 || !strings.HasSuffix(types.TypeString(f.Signature.Results().At(0).Type(), nil), "coq.Expr") {
+			continue
+		}
+		hasName := false
+		for _, pa := range f.Params {
+			if bt, ok := pa.Type().Underlying().(*types.Basic); ok && bt.Info()&types.IsString != 0 {
+				hasName = true
+			}
+		}
+		if hasName && scopeTest(f) {
+			if crf == nil || f.Name() == "coqRecurFunc" {
+				crf = f
+			}
+		}
+	}
 	if crf != nil {
 		// by role: one call passes the name of a plain function (an identifier's spelling), one the result of
 		// coq.MethodName — wherever those calls live
@@ -984,13 +1021,15 @@ func c04Naming(p *Prog, r *Report) {
 		r.Check("R04d", "function and method callees go through coqRecurFunc", crf.Pos(), viaIdent && viaMethod,
 			fmt.Sprintf("coqRecurFunc is called from %v (plain-function path=%v, method path=%v); both the plain-function and the method call path must use it so that a self call uses the recursive binder", callers, viaIdent, viaMethod))
 		// it compares scope containment and returns the quoted binder inside the scope
-		hasScope := false
+		// inside the scope it returns the quoted binder (GallinaString), outside the global (GallinaIdent)
+		retKinds := map[string]bool{}
 		p.instrs(crf, func(b *ssa.BasicBlock, i int, in ssa.Instruction) {
-			if c, ok := in.(*ssa.Call); ok && calleeName(c) == "(*go/types.Scope).Contains" {
-				hasScope = true
+			if mi, ok := in.(*ssa.MakeInterface); ok {
+				retKinds[types.TypeString(mi.X.Type(), nil)] = true
 			}
 		})
-		r.Check("R04d", "coqRecurFunc decides by scope containment", crf.Pos(), hasScope, "")
+		hasScope := retKinds[coqPkg+".GallinaString"] && retKinds[coqPkg+".GallinaIdent"]
+		r.Check("R04d", "coqRecurFunc decides by scope containment", crf.Pos(), hasScope, fmt.Sprintf("the function that tests scope containment must yield the quoted binder inside the scope and the global outside it (yields %v)", sortedKeys(retKinds)))
 	} else {
 		r.Anchor("R04d", "goose.Ctx.coqRecurFunc")
 	}
